@@ -1361,6 +1361,9 @@ func (d *Driver) FamExtVal(nrand int, prop string) {
 			}
 			continue
 		}
+		if prop == "C05" {
+			d.foreignExt(ti)
+		}
 		for _, k := range kinds {
 			for id := 1; id <= 4; id++ {
 				one(map[string]int{k: id}, id%2 == 0, "single")
@@ -1936,4 +1939,84 @@ func (d *Driver) FamPlainHist(n int) {
 			k++
 		}
 	}
+}
+
+// foreignExt (C05): an extension of the message that is declared in ANOTHER .proto file than the message, so the generated code of the
+// message's file never saw its descriptor (field 199, int32; hand-made / dynamically built, not registered).  It is set through
+// csproto.SetExtension; the owning runtime then has to find it in the bytes of csproto.Marshal.
+func (d *Driver) foreignExt(ti TypeInfo) {
+	rt := runtimeOf(ti.Flavour)
+	e := &DEv{C: "extrt", Op: "C05", Fl: specFlavour(ti.Flavour), Key: ti.Key, Mapping: "foreign=1", Raw: "foreign-file"}
+	guard(&e.St, &e.Note, func() {
+		var x, val interface{}
+		if ti.Flavour == "gv2" {
+			md := ti.New().(proto.Message).ProtoReflect().Descriptor()
+			fd := &descriptorpb.FileDescriptorProto{
+				Name: proto.String("verif_foreign_" + ti.Set + ".proto"), Package: proto.String("verif.foreign." + ti.Set), Syntax: proto.String("proto2"),
+				Dependency: []string{md.ParentFile().Path()},
+				Extension: []*descriptorpb.FieldDescriptorProto{{
+					Name: proto.String("foreign"), Number: proto.Int32(199), Label: descriptorpb.FieldDescriptorProto_LABEL_OPTIONAL.Enum(),
+					Type: descriptorpb.FieldDescriptorProto_TYPE_INT32.Enum(), Extendee: proto.String("." + string(md.FullName())),
+				}},
+			}
+			f, err := protodesc.NewFile(fd, protoregistry.GlobalFiles)
+			if err != nil {
+				e.St, e.Note = "harness", err.Error()
+				return
+			}
+			x, val = dynamicpb.NewExtensionType(f.Extensions().Get(0)), int32(42)
+		} else {
+			v := int32(42)
+			x, val = lateDesc(ti), &v
+		}
+		m := ti.New()
+		if err := csproto.SetExtension(m, x, val); err != nil {
+			e.St, e.Note = "err", "SetExtension: "+err.Error()
+			return
+		}
+		b, err := csproto.Marshal(m)
+		if err != nil {
+			e.St, e.Note = "err", err.Error()
+			return
+		}
+		e.Szok = b2i(csproto.Size(m) == len(b))
+		e.Mto = 1
+		e.X2 = 1
+		// (the extension is not registered, so a decoded copy would hold it as an unknown field: look for field 199 = 42 in the bytes, which
+		// is what the owning runtime's table-driven Marshal emits for a message without generated methods)
+		// (on gogo / legacy v1 the runtime's Marshal of this type IS the generated method, so there is no second opinion to ask)
+		f1 := ti.New()
+		if rt.unmarshal(b, f1) == nil && varintField(b, 199) == 42 {
+			e.X1 = 1
+		} else {
+			e.Note = fmt.Sprintf("the extension set on the message is not in the %d marshaled bytes %x", len(b), b)
+		}
+		e.St = "ok"
+	})
+	d.emitD(e)
+}
+
+// varintField returns the value of the last top-level varint field num in b (-1: none).
+func varintField(b []byte, num protowire.Number) int64 {
+	out := int64(-1)
+	for len(b) > 0 {
+		n, typ, l := protowire.ConsumeTag(b)
+		if l < 0 {
+			return out
+		}
+		b = b[l:]
+		if n == num && typ == protowire.VarintType {
+			v, vl := protowire.ConsumeVarint(b)
+			if vl < 0 {
+				return out
+			}
+			out = int64(v)
+		}
+		l = protowire.ConsumeFieldValue(n, typ, b)
+		if l < 0 {
+			return out
+		}
+		b = b[l:]
+	}
+	return out
 }
